@@ -1,7 +1,9 @@
 #!/bin/bash
 # builds, from /repo's current working tree: gogreement (+race), vcheck (+race). Hooks guard: -tags verif.
 set -e
-cd /verif
+ROOT="$(cd "$(dirname "$0")" && pwd)"
+cd "$ROOT"
+export VERIF_ROOT="$ROOT"
 . ./env.sh
 RACE="${1:-0}"
 mkdir -p "$VERIF_BUILD"
